@@ -2478,3 +2478,86 @@ def fam_H(tier):
             if second:
                 units.append({"funcs": [], "entry": "h", "inputs": [({"a": v}, {}) for v in (0, 3)]})
             yield {"fam": "H", "desc": f"first-statement={name}" + (";second-function" if second else ""), "src": src, "units": units}
+
+
+# =============================================================================================
+# DF: declaration and statement forms of the grammar that no other family spells (C02, C05, C14, C17): whatever the front end
+#     lets through has to survive lowering, both optimisation levels, a store/load round trip and execution
+# =============================================================================================
+DF_SOURCES = [
+    # (name, source, arguments of f, globals)
+    ("prototype-and-call", "function g(int p) -> int;\nexport function f(int a) -> int { return g(a) + 1; }\n", {"a": 3}, {}),
+    ("prototype-not-called", "function g(int p) -> int;\nexport function f(int a) -> int { return a + 1; }\n", {"a": 3}, {}),
+    ("prototype-exported", "export function g(int p) -> int;\nexport function f(int a) -> int { return a + 1; }\n", {"a": 3}, {}),
+    ("prototype-then-definition", "function g(int p) -> int;\nexport function f(int a) -> int { return g(a) + 1; }\nfunction g(int p) -> int { return p * 2; }\n", {"a": 3}, {}),
+    ("definition-then-prototype", "function g(int p) -> int { return p * 2; }\nfunction g(int p) -> int;\nexport function f(int a) -> int { return g(a) + 1; }\n", {"a": 3}, {}),
+    ("prototype-last", "export function f(int a) -> int { return a + 1; }\nfunction g(int p) -> int;\n", {"a": 3}, {}),
+    ("unnamed-parameter", "function g(int, int q) -> int { return q * 2; }\nexport function f(int a) -> int { return g(a, a + 1); }\n", {"a": 3}, {}),
+    ("unnamed-parameters-only", "function g(int, float) -> int { return 4; }\nexport function f(int a) -> int { return g(a, 1.5) + a; }\n", {"a": 3}, {}),
+    ("optional-parameter", "function g(int p, __optional int q) -> int { return p * 2; }\nexport function f(int a) -> int { return g(a) + g(a, 1); }\n", {"a": 3}, {}),
+    ("struct-annotation", "[packed] struct S { int x; }\nexport function f(int a) -> int { S s; s.x = a; return s.x; }\n", {"a": 3}, {}),
+    ("struct-two-annotations", "[packed][aligned] struct S { int x; float y; }\nexport function f(int a) -> int { S s; s.x = a; return s.x; }\n", {"a": 3}, {}),
+    ("matrix3x3-keyword", "export function f(matrix3x3 m, int a) -> float { matrix3x3 n = m * m; return n[1][a]; }\n", {"m": [[1.0, 2.0, 3.0], [4.0, 5.0, 6.0], [7.0, 8.0, 9.5]], "a": 2}, {}),
+    ("matrix4x4-keyword", "export function f(matrix4x4 m, int a) -> float { matrix4x4 n = m * m; return n[3][a]; }\n", {"m": [[1.0, 2.0, 3.0, 4.0]] * 4, "a": 2}, {}),
+    ("float4x4-keyword", "export function f(float4x4 m, int a) -> float { float4 r = m[a]; return r.w; }\n", {"m": [[1.0, 2.0, 3.0, 4.0]] * 4, "a": 2}, {}),
+    ("uint-vectors", "export function f(uint2 v, uint3 w, uint4 q) -> uint { return v.x + v.y + w.z + q.w; }\n", {"v": [3, 4], "w": [1, 2, 3], "q": [5, 6, 7, 8]}, {}),
+    ("int-vectors", "export function f(int2 v, int3 w, int4 q) -> int { int3 t = w * 2; return v.x - v.y + t.z + q[3]; }\n", {"v": [3, 4], "w": [1, 2, 3], "q": [5, 6, 7, 8]}, {}),
+    ("void-function-early-return", "int g;\nfunction s(int a) -> void { if (a > 1) { return; } g = a; }\nexport function f(int a) -> int { s(a); return g; }\n", {"a": 3}, {"g": 9}),
+    ("void-function-early-return-not-taken", "int g;\nfunction s(int a) -> void { if (a > 5) { return; } g = a; }\nexport function f(int a) -> int { s(a); return g; }\n", {"a": 3}, {"g": 9}),
+    ("empty-struct", "struct E { }\nexport function f(int a) -> int { E e; return a; }\n", {"a": 3}, {}),
+    ("empty-function-body", "function n() -> void { }\nexport function f(int a) -> int { n(); return a; }\n", {"a": 3}, {}),
+    ("function-without-parameters", "function n() -> int { return 4; }\nexport function f() -> int { return n() + n(); }\n", {}, {}),
+    ("global-with-initialiser", "int g = 5;\nexport function f(int a) -> int { return a + g; }\n", {"a": 3}, {"g": 9}),
+    ("struct-in-struct", "struct A { int x; }\nstruct B { A a; int y; }\nexport function f(int v) -> int { B b; b.a.x = v; b.y = 2; return b.a.x + b.y; }\n", {"v": 3}, {}),
+    ("struct-with-array-of-struct", "struct A { int x; }\nstruct B { A[2] as; }\nexport function f(int a) -> int { B b; b.as[1].x = a; return b.as[1].x + b.as[0].x; }\n", {"a": 3}, {}),
+    ("global-array-of-struct", "struct A { int x; }\nA[2] ga;\nexport function f(int a) -> int { ga[1].x = a; return ga[1].x + ga[0].x; }\n", {"a": 3}, {"ga": [{"x": 1}, {"x": 2}]}),
+    ("struct-declared-after-use", "struct B { A a; int y; }\nstruct A { int x; }\nexport function f(int a) -> int { B b; b.a.x = a; return b.a.x; }\n", {"a": 3}, {}),
+    ("struct-containing-itself", "struct A { A a; int x; }\nexport function f(int a) -> int { A b; b.x = a; return b.x; }\n", {"a": 3}, {}),
+    ("function-named-like-struct", "struct A { int x; }\nfunction A(int p) -> int { return p; }\nexport function f(int a) -> int { return A(a); }\n", {"a": 3}, {}),
+    ("variable-named-like-function", "function g(int p) -> int { return p; }\nexport function f(int a) -> int { int g = 2; return g + g(a); }\n", {"a": 3}, {}),
+    ("variable-named-like-type", "struct A { int x; }\nexport function f(int a) -> int { int A = 2; return A + a; }\n", {"a": 3}, {}),
+    ("function-returns-struct", "struct A { int x; float y; }\nfunction mk(int v) -> A { A r; r.x = v; return r; }\nexport function f(int a) -> int { A q = mk(a); return q.x; }\n", {"a": 3}, {}),
+    ("function-returns-array", "function mk(int v) -> int[2] { int[2] r; r[1] = v; return r; }\nexport function f(int a) -> int { int[2] q = mk(a); return q[1] + q[0]; }\n", {"a": 3}, {}),
+    ("function-returns-matrix", "function mk(float v) -> float3x3 { float3x3 r; r[1][1] = v; return r; }\nexport function f(int a) -> float { float3x3 q = mk(1.5) * 2.0; return q[1][a]; }\n", {"a": 1}, {}),
+    ("value-returned-from-void-function", "function n(int a) -> void { return 1; }\nexport function f(int a) -> int { n(a); return a; }\n", {"a": 3}, {}),
+    ("bare-return-in-int-function", "export function f(int a) -> int { if (a > 5) { return; } return a; }\n", {"a": 3}, {}),
+    ("missing-return", "export function f(int a) -> int { a = a + 1; }\n", {"a": 3}, {}),
+    ("missing-return-on-one-path", "export function f(int a) -> int { if (a > 5) { return 1; } }\n", {"a": 3}, {}),
+    ("void-call-in-expression", "function n() -> void { }\nexport function f(int a) -> int { return a + n(); }\n", {"a": 3}, {}),
+    ("void-call-initialises-variable", "function n() -> void { }\nexport function f(int a) -> int { int v = n(); return a; }\n", {"a": 3}, {}),
+    ("void-variable", "export function f(int a) -> int { void v; return a; }\n", {"a": 3}, {}),
+    ("void-array", "export function f(int a) -> int { void[2] v; return a; }\n", {"a": 3}, {}),
+    ("array-of-size-zero", "export function f(int a) -> int { int[0] v; return a; }\n", {"a": 3}, {}),
+    ("unknown-type", "export function f(int a) -> int { Foo v; return a; }\n", {"a": 3}, {}),
+    ("unknown-return-type", "export function f(int a) -> Foo { return a; }\n", {"a": 3}, {}),
+    ("unknown-field", "struct A { int x; }\nA ga;\nexport function f(int a) -> int { return ga.y; }\n", {"a": 3}, {"ga": {"x": 1}}),
+    ("struct-argument", "struct A { int x; }\nfunction g(A p) -> int { p.x = p.x + 1; return p.x; }\nexport function f(int a) -> int { A q; q.x = a; return g(q) * 10 + q.x; }\n", {"a": 3}, {}),
+    ("struct-compared", "struct A { int x; }\nexport function f(int a) -> int { A q; A r; return q == r; }\n", {"a": 3}, {}),
+    ("struct-added", "struct A { int x; }\nexport function f(int a) -> int { A q; A r; q = q + r; return a; }\n", {"a": 3}, {}),
+    ("array-added", "export function f(int a) -> int { int[2] q; int[2] r; q = q + r; return a; }\n", {"a": 3}, {}),
+    ("vector-as-condition", "export function f(float4 w) -> int { if (w) { return 1; } return 2; }\n", {"w": [0.0, 0.0, 0.0, 0.0]}, {}),
+    ("float-as-loop-condition", "export function f(float x) -> int { int n = 0; while (x) { x = x - 1.0; n = n + 1; } return n; }\n", {"x": 2.0}, {}),
+    ("increment-of-global", "int g;\nexport function f(int a) -> int { ++g; g++; return g; }\n", {"a": 3}, {"g": 9}),
+    ("increment-of-float-parameter", "export function f(float x) -> float { ++x; x--; ++x; return x; }\n", {"x": 2.5}, {}),
+    ("compound-on-element", "export function f(int a) -> int { int[2] q; q[1] += a; q[1] *= 3; q[0] -= 1; return q[1] * 10 + q[0]; }\n", {"a": 3}, {}),
+    ("compound-on-field", "struct A { int x; float y; }\nexport function f(int a) -> float { A q; q.x += a; q.y += 1.5; q.y *= 2.0; return q.y + q.x; }\n", {"a": 3}, {}),
+    ("compound-on-swizzle", "export function f(float4 w) -> float4 { w.xy += float2(1.0, 2.0); w.z *= 2.0; return w; }\n", {"w": [1.0, 2.0, 3.0, 4.0]}, {}),
+    ("compound-divide-vector", "export function f(float4 w) -> float4 { w /= 2.0; w -= w; return w; }\n", {"w": [1.0, 2.0, 3.0, 4.0]}, {}),
+    ("assignment-to-literal", "export function f(int a) -> int { 3 = a; return a; }\n", {"a": 3}, {}),
+    ("assignment-to-call", "function g(int p) -> int { return p; }\nexport function f(int a) -> int { g(a) = 3; return a; }\n", {"a": 3}, {}),
+    ("chained-assignment", "export function f(int a) -> int { int b; int c; b = c = a; return b * 10 + c; }\n", {"a": 3}, {}),
+    ("assignment-as-condition", "export function f(int a) -> int { int b; if (b = a) { return b; } return 2; }\n", {"a": 3}, {}),
+    ("assignment-as-argument", "function g(int p) -> int { return p * 2; }\nexport function f(int a) -> int { int b; int r = g(b = a + 1); return r * 10 + b; }\n", {"a": 3}, {}),
+    ("call-as-statement-and-index", "function g(int p) -> int { return p - 1; }\nexport function f(int a) -> int { int[3] q; q[g(a)] = 7; g(a); return q[g(3)]; }\n", {"a": 3}, {}),
+    ("import-of-nothing", "import \"does_not_exist\";\nexport function f(int a) -> int { return a; }\n", {"a": 3}, {}),
+    ("only-declarations", "int g;\nstruct A { int x; }\n", None, {}),
+    ("only-a-struct", "struct A { int x; }\n", None, {}),
+    ("only-a-global", "float4 gq;\n", None, {}),
+]
+
+
+@family("DF")
+def fam_DF(tier):
+    for name, src, args, globs in DF_SOURCES:
+        units = [] if args is None else [{"funcs": [], "entry": "f", "inputs": [(args, globs)]}]
+        yield {"fam": "DF", "desc": f"form={name}", "src": src, "units": units or [{"funcs": [], "entry": "f", "inputs": []}]}
